@@ -520,12 +520,16 @@ func RunLoaded(l *Loaded, o Opts) *report.Report {
 		}
 		sort.SliceStable(fired, func(i, j int) bool { return fired[i].f.Step < fired[j].f.Step })
 		seenStep := map[int]bool{}
+		selKeys := map[int]string{} // trace step index -> choice variable of its blocking select
 		for _, x := range fired {
 			if seenStep[x.f.Step] {
 				continue
 			}
 			seenStep[x.f.Step] = true
 			tr.Steps = append(tr.Steps, vsched.TraceStep{Th: x.f.Th, Stmt: x.st, Op: x.f.Op, Pos: x.f.Pos, Step: x.f.Step})
+			if x.f.SelKey != "" {
+				selKeys[len(tr.Steps)-1] = x.f.SelKey
+			}
 		}
 		for _, f := range m.FinalLog {
 			if isTrue(f.G) {
@@ -561,6 +565,13 @@ func RunLoaded(l *Loaded, o Opts) *report.Report {
 		}
 		for k, v := range m.Fix {
 			tr.Inputs["fix!"+k] = []int64{v}
+		}
+		// the case chosen by every blocking select that starts a step (the native replay forces it:
+		// Go picks at random among ready cases)
+		for i, k := range selKeys {
+			if v, ok := tr.Inputs[k]; ok && len(v) > 0 && i < len(tr.Steps) {
+				tr.Steps[i].Sel = int(v[0]) + 1
+			}
 		}
 		// environment cancellations that happen in this model
 		for _, er := range m.EnvLog {
